@@ -383,6 +383,8 @@ class JSRegExp(JSObject):
         from .regex import RegExp as InternalRegExp, RegExpError
         from .errors import JSSyntaxError
 
+        if any(f not in "dgimsuy" for f in flags) or len(set(flags)) != len(flags):
+            raise JSSyntaxError(f"Invalid flags supplied to RegExp constructor '{flags}'")
         try:
             self._internal = InternalRegExp(pattern, flags, poll_callback)
         except RegExpError as e:
